@@ -172,6 +172,20 @@ func genC32(c *Case, r *kit.Rand) {
 			"bg-outliving-subshell", "bg-outliving-cmdsubst", "procsubst-outliving-subshell", "bg-outliving-function-subshell", "bg-in-bg",
 			"pipe-left-fatal", "pipe-all-left-fatal", "pipe-left-exits", "bg-fatal", "cmdsubst-fatal-in-bg",
 			"bg-writes-into-cmdsubst", "bg-writes-into-cmdsubst-late", "procsubst-writes-into-cmdsubst"})
+		if lr := r.Fork("lang"); lr.Chance(1, 10) {
+			// parsed as zsh: "&!" and "&|" start (disowned) background jobs
+			c.Lang = "zsh"
+			c.Ctx = kit.Pick(lr, []string{"zsh-disown-bang", "zsh-disown-pipe", "zsh-disown-bang", "background", "pipe-both"})
+		}
+		if br := r.Fork("builtin-first"); c.Idx < 96 || br.Chance(1, 12) {
+			// Both sides start with the same builtin call: package-level
+			// state that a builtin initialises lazily races only on its
+			// first use in a process, and the driver runs the first cases of
+			// a batch in processes of their own.
+			b := kit.Pick(br, []string{"help >/dev/null 2>&1", "help 'e*' >/dev/null 2>&1", "help w >/dev/null 2>&1", "type -a echo >/dev/null 2>&1", "hash 2>/dev/null", "times >/dev/null", "printf '%b %q\\n' 'a\\tb' \"$s1\" >/dev/null", "echo -e 'x\\ty' >/dev/null", "[[ abc =~ ^(a)(b) ]]", "[[ $s1 == f* ]]", "test -d /home/d1", "shopt >/dev/null", "set -o >/dev/null", "trap -l >/dev/null", "kill -l >/dev/null 2>&1", "getopts ab gopt -a", "read bv <<< x", "mapfile -t bm <<< x", "echo /home/d1/*.sh /home/**/g.sh >/dev/null", "echo {1..3} ~ $((1+2)) >/dev/null", "printf -v bpv %s x", "declare -p s1 >/dev/null", "alias >/dev/null", "dirs >/dev/null", "wait", "pwd >/dev/null", "cd . 2>/dev/null", "let 'bl=1+2'", "echo ${s1@Q} ${s1^^} >/dev/null", "eval ':'", "source /home/d1/g.sh >/dev/null 2>&1", "command -v echo >/dev/null", "builtin true", "umask >/dev/null 2>&1", "ulimit -n >/dev/null 2>&1", "enable >/dev/null 2>&1"})
+			c.S = append([]string{b}, c.S...)
+			c.T = append([]string{b}, c.T...)
+		}
 		c.Faults = genFaults(r.Fork("faults"), []string{"mkfifo-fail", "fifo-open-fail", "exec-fail", "short-read"})
 		// The FIFO error paths are where a child goroutine reports through
 		// runner fields; make sure they are reached often, and place the
@@ -191,6 +205,10 @@ func (c *Case) c32RaceProgram() string {
 		l = append(l, "{\n"+S+"\ntrue\n} &", T)
 	case "coproc-like-bg-subshell":
 		l = append(l, "(\n"+S+"\n) &", T)
+	case "zsh-disown-bang":
+		l = append(l, "{\n"+S+"\ntrue\n} &!", T, "sleep 3")
+	case "zsh-disown-pipe":
+		l = append(l, "{\n"+S+"\ntrue\n} &|", T, "sleep 3")
 	case "procsubst-out":
 		l = append(l, "emit 2 > >(\n"+S+"\ndrain >/dev/null\n)", T)
 	case "pipe-both":
@@ -340,6 +358,7 @@ var c29Pool = []string{
 	"time -p true 2>/dev/null", "! false", "coproc_skip=1", "for ((i=0;i<2;i++)); do echo $i{a,b}; done", "until true; do :; done", "select_x=1", "echo ${s1@Q} ${s1^^} ${!s*} ${#arr[@]} ${arr[@]:1:2}", "echo $(< /home/f1.txt)", "x=$(( ${#s1} + 1 )); echo $x", "case $s1 in f*|g*) echo {c1,c2};; *) :;; esac", "[[ $s1 =~ ^(f)(o+)$ ]] && echo ${BASH_REMATCH[1]}", "ff() { local a1=$1; shift; echo \"$a1 $*\" {y,z}; }; ff {1,2} 3", "al2() { :; }; alias al2='echo aliased '; al2 ll x", "unalias ll 2>/dev/null", "eval 'ff e{1,2}' 2>/dev/null", "source /home/d1/g.sh", "trap 'echo {t1,t2}' ERR; false", "wait",
 	"echo $s1{a,b}", "echo \"p q\"{1..3}", "echo {a,\"b c\"}.txt", "echo ${s1}{1,2}", "echo $(echo cs){x,y}", "echo '{q}'{1,2}$s1", "for i in $s1{x,y} \"z\"{1,2}; do echo $i; done", "arr3=($s1{a,b} \"q\"{1,2})", "export ex$s1{a,b}=1 2>/dev/null", "declare v$s1{1,2}=val 2>/dev/null", "ll $s1{m,n}", "cat <<< $s1{h,i}", "echo ~{a,b} {a,b}$((1+1))", "case $s1{a,b} in *) echo c;; esac", "[[ $s1{a,b} == f* ]] || true", "f $s1{p,q} | cat", "{ echo $s1{bg1,bg2}; } &",
 	"declare -a arr=({1..3} $s1)", "declare v{1,2}=val", "export ex{a,b}=1", "local_fn() { local q{1,2}=z; echo $q1; }; local_fn",
+	"echo x >&/home/o.txt", "true >&log 2>/dev/null", "f a >&$s1 2>/dev/null", "{ echo y; } >&/home/o2.txt", "for i in 1 2; do echo $i >&/home/o3.txt; done", "cat <&/home/f1.txt 2>/dev/null", "echo z &>>/home/o.txt", "echo w >|/home/o.txt", "cat <>/home/f1.txt >/dev/null", "exec 3<>/home/o.txt", "echo v 1>&2 2>&1", "echo u >&2-", "cat 0<&3- 2>/dev/null", "echo {fdv}>/home/o.txt 2>/dev/null",
 	"fc() { # c1\n echo x # c2\n}\ndeclare -f fc", "# leading comment\nfc2() {\n# inside\n:\n}; declare -f fc2 >/dev/null; fc2", "declare -f f >/dev/null # trailing", "fc3() (\n# in subshell body\necho y\n)\ntype fc3 >/dev/null; declare -f fc3 fc fc2", "if true; then # c\n:\nfi # d", "case x in # c\nx) : ;; # d\nesac", "arr4=( # c\n1 # d\n2\n)", "echo $( # c\necho in # d\n)",
 	"declare -A am; am=(a 1 b 2); am=(a 1 b 2)", "ENVMAP=(k1 v1 k2 v2)", "declare -A am2; am2=(k v o); am2+=(p q)", "amf() { local -A lm; lm=(a 1 b 2); }; amf; amf", "unset 'ENVSPARSE[5]'", "unset 'ENVSPARSE[-1]'", "unset 'ENVARR[-1]'", "for i in 1 2; do declare -A lm2; lm2=(x y z w); done",
 	"for i in {1..3} x{a,b}; do echo $i; done", "arr2=({a,b} c [5]=d)", "arr2+=(e{1,2})", "s1+=x", "ENVARR+=x", "ENVARR+=(y z)", "ENVARR+=([1]=X)", "ENVARR+=([0]=Z w)", "ENVARR+=([-1]=neg)", "ENVSPARSE+=([2]=chg)", "ENVSPARSE+=([5]=chg [9]=far)", "ENVMAP+=([k]=new)", "ENVMAP+=([q]=1)", "ENVARR[1]+=app", "ENVMAP[k]+=app", "unset 'ENVSPARSE[2]'", "ENVARR=(${ENVARR[@]} more)", "read -a ENVARR <<< 'r1 r2'", "mapfile -t ENVARR <<< mapped", "declare -a ENVARR", "local_env() { local ENVARR; ENVARR+=(l); }; local_env", "f_env() { ENVARR[0]=in-func; ENVMAP[k]=in-func; }; f_env", "( ENVARR[0]=sub; ENVMAP[k]=sub )", "{ ENVARR+=([1]=bg); } &", "x=$(ENVARR[1]=cs; echo ${ENVARR[1]})", "ENVARR[0]=pipe | cat", "ENVARR[0]=changed", "ENVSPARSE[3]=new", "ENVSPARSE+=(w)", "ENVMAP[k]=changed", "ENVMAP[n]=1", "unset 'ENVMAP[k]'", "unset 'ENVARR[1]'", "unset ENVARR", "ENVSTR+=more", "unset ENVSTR", "export ENVSTR=re", "ENVRO=try 2>/dev/null", "declare -x ENVARR", "readonly ENVMAP",
@@ -395,6 +414,7 @@ var c30ProgPool = []string{
 	"set -o pipefail\nfalse | true\necho rc=$?", "set -e\nfalse\necho not-reached", "set -o allexport\nav=1\ndeclare -p av", "shopt -s expand_aliases\nalias ea='echo ea-body'\nea", "IFS=:\nv=a:b\necho $v", "OPTIND=1\ngetopts ab o -a -b\ngetopts ab o -a -b\necho $o$OPTIND",
 	"echo \"[$undef_var]\"", "echo /home/d1/*.sh", "files=(/home/d1/*); echo ${#files[@]}", "echo /home/d1/nomatch*", "echo ${undef_arr[0]-dflt} \"${undef2:-x}\"", "echo /home/d1/@(g|loop).sh", "echo /home/**/g.sh",
 	"echo rc=$?", "echo rc=$?", "f_ret() { return 3; }; f_ret", "( exit 6 )", "true | false", "! true", "x=$(fail 9)", "getopts ab o -b; echo \"o=$o OPTIND=$OPTIND\"", "shift 2>/dev/null; echo \"params:$#\"", "local_top=1 2>&1", "trap 'echo p-exit' EXIT", "alias pa='echo pa'; shopt -s expand_aliases", "pa 2>&1",
+	"fatal", "fatal", "x=$(fatal)", "(fatal); echo after-subshell-fatal", "fatal | cat", "cat < /nonexistent-fatal 2>&1", "PWD=/gone; pwd -P 2>&1",
 	"type echo >/dev/null; echo rc=$?", "exit 5", "echo unreachable-maybe", "set -e", "set -u", "trap 'echo p-err' ERR",
 }
 
@@ -617,6 +637,15 @@ var c31Pool = []c31Prog{
 	{"err-trap-read", []string{"trap 'read z' ERR", "false"}, "silent"},
 	{"exit-trap-wait", []string{"trap 'wait' EXIT", "sleep 1000 &"}, "nil"},
 	{"function-trap-loop", []string{"tf() { while :; do :; done; }", "trap tf EXIT", "true"}, "nil"},
+	{"left-fills-pipe-right-blocks", []string{"while :; do echo yyyyyyyyyyyyyyyyyyyyyyyyyyyyyyyyyyyyyyyyyyyyyyyyyyyyyy; done | stubborn"}, "nil"},
+	{"left-fills-pipe-right-reads-one", []string{"while :; do echo yyyyyyyyyyyyyyyyyyyyyyyyyyyyyyyyyyyyyy; done | { read x; sleep 1000; }"}, "nil"},
+	{"left-fills-pipe-all-right-sleeps", []string{"while :; do echo yyyyyyyyyyyyyyyyyyyyyyyyyyyyyy; done |& sleep 1000"}, "nil"},
+	{"yes-into-sleeping-block", []string{"yes | { sleep 1000; }"}, "nil"},
+	{"cstyle-loop-exit-0", []string{"for ((;;)); do exit 0; done"}, "nil"},
+	{"cstyle-loop-bare-exit", []string{"for ((;;)); do exit; done", "echo after"}, "nil"},
+	{"cstyle-loop-return-in-function", []string{"cf2() { for ((;;)); do return; done; }", "cf2", "while true; do :; done"}, "nil"},
+	{"source-endless-lines", []string{"source /dev/yes"}, "nil"},
+	{"dot-endless-lines-in-function", []string{"sf() { . /dev/yes; }", "sf"}, "nil"},
 	{"four-readers-one-stdin", []string{"read a & read b & read c & read d", "wait"}, "silent"},
 	{"three-readers-one-stdin-wait-jobs", []string{"read a &", "read b &", "mapfile c &", "wait g1 g2 g3"}, "silent"},
 	{"readers-in-pipeline-and-job", []string{"read a | read b & read c", "wait"}, "silent"},
@@ -665,7 +694,7 @@ var c31Pool = []c31Prog{
 	{"coproc-like", []string{"{ while read l; do echo $l; done; } < <(sleep 1000) &", "wait"}, "nil"},
 }
 
-var c31Prefix = []string{"a=1", "echo start", "f0() { :; }", "x=$(echo sub)", "for i in 1 2 3; do :; done", "emit 1 | drain >/dev/null", "sleep 1", "(b=2)", "true &", "cat < /home/f1.txt >/dev/null"}
+var c31Prefix = []string{"set -o pipefail", "set -o pipefail", "set -e", "shopt -s lastpipe 2>/dev/null", "set -o errexit -o pipefail", "trap 'echo t' ERR", "a=1", "echo start", "f0() { :; }", "x=$(echo sub)", "for i in 1 2 3; do :; done", "emit 1 | drain >/dev/null", "sleep 1", "(b=2)", "true &", "cat < /home/f1.txt >/dev/null"}
 
 func genC31(c *Case, r *kit.Rand, idx int, tier string) {
 	p := c31Pool[idx%len(c31Pool)]
